@@ -202,6 +202,7 @@ contract(
                                entry=S.nt("praatio.utilities.constants.Interval",
                                           [S.real("entry.start"), S.real("entry.end"), S.str("entry.label")])),
     spec="spec.tiers.TextgridTier_deleteEntry",
+    ensures=[("well-formed", "well_formed(self)")],
 )
 
 INSERT_CFG = {"collisionMode": ["replace", "merge", "error", "bogus"], "collisionReportingMode": ["silence", "warning"]}
@@ -238,6 +239,7 @@ contract(
                                entry=S.nt("praatio.utilities.constants.Point",
                                           [S.real("entry.time"), S.str("entry.label")])),
     spec="spec.tiers.TextgridTier_deleteEntry",
+    ensures=[("well-formed", "well_formed(self)")],
 )
 
 REGION = ["0 <= start", "self.minTimestamp <= start", "end <= self.maxTimestamp"]
